@@ -54,8 +54,10 @@ func WithGlobalTx(ctx context.Context, gc *GtxConfig, business CallbackWithCtx) 
 		ctx = InitSeataContext(ctx)
 	}
 
+	// an enclosing global transaction keeps its own context variable (xid, role, name): the
+	// scope opened here works on a new context that only inherits the xid
 	if IsGlobalTx(ctx) {
-		clearTxConf(ctx)
+		ctx = transferTx(ctx)
 	}
 
 	if re = begin(ctx, gc); re != nil {
@@ -209,4 +211,12 @@ func useExistGtx(ctx context.Context, gc *GtxConfig) {
 // clearTxConf When using global transactions in local mode, you need to clear tx config to use the propagation of global transactions.
 func clearTxConf(ctx context.Context) {
 	SetTx(ctx, &GlobalTransaction{Xid: GetXID(ctx)})
+}
+
+// transferTx When using global transactions in local mode, the nested scope gets a new seata context that
+// carries only the xid of the enclosing transaction, as if it had arrived by rpc.
+func transferTx(ctx context.Context) context.Context {
+	newCtx := InitSeataContext(ctx)
+	SetXID(newCtx, GetXID(ctx))
+	return newCtx
 }
